@@ -29,7 +29,7 @@ RULE = ("document texts: line- and character-prefixes of the repository samples,
         "pool start-up (initialize), didOpen from disk, didChange typing. evaluations = (text, route) pairs indexed; "
         "distinct = distinct (text, suffix) fingerprints")
 ASSUME = ["CPU budget per text max(2 s, 0.02 s * lines); typical cost is <1 ms so a budget overrun is 3 orders of magnitude",
-          "pp_defs values are strings", "texts are delivered as UTF-8 except the explicit non-UTF-8 stressor written as bytes"]
+          "pp_defs values are strings, numbers or booleans", "texts are delivered as UTF-8 except the explicit non-UTF-8 stressor written as bytes"]
 
 
 def plan(tier):
@@ -105,7 +105,7 @@ def run_case(ctx, i, rng):
     n = 28 if ctx.tier == "quick" else 40
     texts = gen_texts(ctx, i, rng, n)
     pp = rng.random() < 0.4
-    args = ["--pp_defs", '{"A": "1", "B": "", "X": "0"}'] if pp else []
+    args = ["--pp_defs", rng.choice(['{"A": "1", "B": "", "X": "0"}', '{"A": 1, "B": "", "X": 0, "HAVE_MPI": 1, "T": true}'])] if pp else []
     if rng.random() < 0.3:
         args += ["--incremental_sync"]
     files = {}
